@@ -11,3 +11,5 @@ open O2P.Jq
 #print axioms skip_independent
 #print axioms source_invalid_doc
 #print axioms compile_correct
+#print axioms compile_wf
+#print axioms compile_correct_all
